@@ -52,6 +52,11 @@ var execCounter int
 // of the built-in name that a run may overwrite.
 const builtinVariant = 100
 
+// emptyVariant: the application registers the EMPTY decoration under a name.
+// The latest registration wins, so lookups then return the empty decoration
+// and a table set to that name refuses to render — but the name is listed.
+const emptyVariant = 101
+
 const overwrittenBuiltin = decoration.D_UTF8_DOUBLE
 
 func NewRegRun(seed uint64, npool int, overwriteBuiltin ...bool) *RegRun {
@@ -89,11 +94,52 @@ func NewRegRun(seed uint64, npool int, overwriteBuiltin ...bool) *RegRun {
 
 func (rr *RegRun) tick() int { rr.seq++; return rr.seq }
 
+// Close puts back every built-in name this run overwrote: the registry lives
+// as long as the process and later runs expect the built-ins to be themselves.
+func (rr *RegRun) Close() {
+	seen := map[string]bool{}
+	for _, o := range rr.hist {
+		if o.kind == "reg" && isBuiltin(o.name) && !seen[o.name] {
+			seen[o.name] = true
+			decoration.RegisterDecorationName(o.name, originalBuiltin(o.name))
+		}
+	}
+}
+
+func originalBuiltin(name string) decoration.Decoration {
+	switch name {
+	case decoration.D_ASCII_SIMPLE:
+		return decoration.ASCIIBoxSimple()
+	case decoration.D_NONE:
+		return decoration.NoBox()
+	case decoration.D_UTF8_LIGHT:
+		return decoration.UTF8BoxLight()
+	case decoration.D_UTF8_LIGHT_CURVED:
+		return decoration.UTF8BoxLightCurved()
+	case decoration.D_UTF8_DOUBLE:
+		return decoration.UTF8BoxDouble()
+	}
+	return decoration.UTF8BoxHeavy()
+}
+
+// registeredNow: some registration of exactly this name has completed.
+func (rr *RegRun) registeredNow(name string) bool {
+	for _, o := range rr.hist {
+		if o.kind == "reg" && o.name == name && o.ret > 0 {
+			return true
+		}
+	}
+	return false
+}
+
 // variantDeco is decoration number v: complete, and recognisable in rendered
 // output by its cross-piece glyph.
 func variantDeco(v int) decoration.Decoration {
 	if v == builtinVariant {
 		return decoration.UTF8BoxDouble()
+	}
+	if v == emptyVariant {
+		return decoration.Decoration{}
 	}
 	g := variantGlyph(v)
 	if v%20 >= 16 {
@@ -174,6 +220,12 @@ func (rr *RegRun) DoReg(task int, st *Step, log *EventLog) *Violation {
 			rr.Probes["decoration_named_like_a_subpackage_style"]++
 		}
 		op.variant = pick(20, st.B)
+		if st.D == 1 && st.C == 0 && !strings.Contains(op.name, ".") {
+			// (not under a dotted name: through auto an unusable "X.Y" legitimately
+			// falls back to "X")
+			op.variant = emptyVariant
+			rr.Probes["empty_decoration_registered"]++
+		}
 		op.inv = rr.tick()
 		rr.hist = append(rr.hist, op)
 		decoration.RegisterDecorationName(op.name, variantDeco(op.variant))
@@ -191,9 +243,9 @@ func (rr *RegRun) DoReg(task int, st *Step, log *EventLog) *Violation {
 		op.ret = rr.tick()
 	case "setdeco":
 		op.name = rr.nameFor(st.A)
-		if via := pick(4, st.B); via >= 2 && !strings.Contains(op.name, ".") {
-			// (a dotted name is left to the direct route: through auto, "X.Y" with
-			// only X registered legitimately selects X)
+		if via := pick(4, st.B); via >= 2 && (!strings.Contains(op.name, ".") || rr.registeredNow(op.name)) {
+			// (a dotted name that is not registered is left to the direct route:
+			// through auto, "X.Y" with only X registered legitimately selects X)
 			// through the auto package, which looks the name up itself and swallows
 			// the error: the refusal to render is then the only report
 			style := op.name
@@ -310,7 +362,7 @@ func (rr *RegRun) CheckC17() *Violation {
 			}
 			vars, emptyOK, latest := rr.allowed(o.name, o.inv, o.ret)
 			if o.got == decoration.EmptyDecoration {
-				if !emptyOK {
+				if !emptyOK && !vars[emptyVariant] {
 					return v("lookup-lost-registration", "Named(%q) at [%d,%d] returned the empty decoration although a registration of it had completed", o.name, o.inv, o.ret)
 				}
 				continue
@@ -380,7 +432,8 @@ func (rr *RegRun) CheckC17() *Violation {
 						anyInvoked = true
 					}
 				}
-				if o.err && !emptyOK {
+				vars0, _, _ := rr.allowed(o.name, o.inv, o.ret)
+				if o.err && !emptyOK && !vars0[emptyVariant] {
 					return v("setdeco-error-for-registered", "SetDecorationNamed(%q) at [%d,%d] failed although a registration had completed", o.name, o.inv, o.ret)
 				}
 				if !o.err && !anyInvoked {
@@ -405,7 +458,7 @@ func (rr *RegRun) CheckC17() *Violation {
 				vars, _, _ := rr.allowed(o.name, o.inv, o.ret)
 				ok := false
 				for vv := range vars {
-					if strings.Contains(o.out, variantGlyph(vv)) {
+					if vv != emptyVariant && strings.Contains(o.out, variantGlyph(vv)) {
 						ok = true
 					}
 				}
@@ -601,16 +654,17 @@ func (rr *RegRun) ProbeC19(registered map[string]int, inflight bool, trailerSeed
 	}
 	sort.Strings(names)
 	for _, n := range names {
-		a, b := auto.New(n), auto.New("texttable."+n)
+		prefix := []string{"texttable.", "TextTable.", "TEXTTABLE."}[pick(3, trailerSeed+len(n))]
+		a, b := auto.New(n), auto.New(prefix+n)
 		if typeName(a) != "texttable" || typeName(b) != "texttable" {
-			return v("decoration-name-not-texttable", "auto.New(%q)/auto.New(%q) are %s/%s", n, "texttable."+n, typeName(a), typeName(b))
+			return v("decoration-name-not-texttable", "auto.New(%q)/auto.New(%q) are %s/%s", n, prefix+n, typeName(a), typeName(b))
 		}
 		fill(a)
 		fill(b)
 		ao, ae := a.Render()
 		bo, be := b.Render()
 		if ae != nil || be != nil || ao != bo || ao == "" {
-			return v("prefixed-name-differs", "auto.New(%q) and auto.New(%q) render differently (err %v / %v)", n, "texttable."+n, ae, be)
+			return v("prefixed-name-differs", "auto.New(%q) and auto.New(%q) render differently (err %v / %v)", n, prefix+n, ae, be)
 		}
 		direct := texttable.Wrap(smallTable())
 		if _, err := direct.SetDecorationNamed(n); err == nil && !inflight {
